@@ -315,7 +315,7 @@ def run(facts, tier):
         "R13-3 the DomException variants each mutator constructs are compared with the DOM Level 1 exception table, "
         "OufOfIndex arms must map to NotFoundErr, the owner-document test dominates every mutating call (R13-3b) and compares "
         "identity, not content (R13-3c).")
-    res.assumptions = ["unwind edges ignored; RefCell double-borrow panics (aliasing) not claimed",
+    res.assumptions = ["unwind edges ignored; RefCell conflicts are claimed only where a live RefMut / Ref and the conflicting call are in one function (R13-8)",
                        "that a successful call performs exactly the DOM Level 1 change is not decided"]
     roots = entries.c13(facts)
     if len(roots) < 45:
@@ -331,6 +331,8 @@ def run(facts, tier):
     r13_3c_everywhere(facts, res)
     r13_5(facts, res)
     r13_7(facts, res)
+    import borrowck
+    borrowck.rule(facts, res, "R13-8", reach, floor=10)
     # index-size errors of the data setters: the bounds guards of C16 (offset > length raises, a count past the end is clipped)
     from props import c16
     c16.guard_rules(facts, res, "R13-6", "R13-6c")
